@@ -311,3 +311,139 @@ pub fn run_conv(case: &ConvCase, prop: ConvProp) -> CaseReport {
     rep.nontrivial = dup && !case.ops.is_empty();
     rep
 }
+
+// ------------------------------------------------------------------ C18: conversions under injected panics
+
+/// one execution with the crash point `arm_at` (-1 = dry run): (user-code calls seen, hazards)
+fn one_faulty(case: &ConvCase, arm_at: i64) -> (i64, Vec<String>) {
+    reset_case();
+    alloc::set_quarantine(true);
+    alloc::take_quarantine_damage();
+    let items: Vec<(TKey, TVal)> = case.items.iter().enumerate().map(|(j, k)| (TKey::new(*k), TVal::new(INIT + j as u32))).collect();
+    arm(arm_at);
+    let built = catch_unwind(AssertUnwindSafe(move || build(case.form, items)));
+    let mut cache: Option<C> = built.ok();
+    let mut lost = false;
+    if let Some(c) = cache.as_mut() {
+        for (i, op) in case.ops.iter().enumerate() {
+            let tok = crate::ops::token(i, 0);
+            if fired().is_some() {
+                // after a panic has orphaned a node a shrinking resize / remove_lru loop may spin
+                // forever (a hang, not a memory hazard): excluded by construction, as in E4
+                if matches!(op, COp::Resize(n) if (*n as usize) < c.cap()) {
+                    continue;
+                }
+            }
+            let r = catch_unwind(AssertUnwindSafe(|| match op {
+                COp::Put(k) => drop(c.put(TKey::new(*k), TVal::new(tok))),
+                COp::Get(k) => {
+                    let _ = c.get(&TKey::new(*k)).map(|x| x.read());
+                }
+                COp::GetMut(k) => {
+                    if let Some(x) = c.get_mut(&TKey::new(*k)) {
+                        x.write(tok);
+                    }
+                }
+                COp::Peek(k) => {
+                    let _ = c.peek(&TKey::new(*k)).map(|x| x.read());
+                }
+                COp::Contains(k) => {
+                    let _ = c.contains(&TKey::new(*k));
+                }
+                COp::Remove(k) => drop(c.remove(&TKey::new(*k))),
+                COp::RemoveLru => drop(c.remove_lru()),
+                COp::Resize(n) => {
+                    let _ = c.resize(*n as usize);
+                }
+                COp::CloneSwap => {
+                    let d = c.clone();
+                    *c = d;
+                }
+                COp::Purge => c.purge(),
+                COp::IterBack => {
+                    let mut it = (&mut *c).into_iter();
+                    let _ = it.next_back().map(|(k, x)| (k.read(), x.read()));
+                    let _ = it.next().map(|(k, x)| (k.read(), x.read()));
+                }
+            }));
+            if r.is_err() {
+                let _ = take_last_panic();
+            }
+            if has_bad() {
+                break;
+            }
+            if fired().is_some() && catch_unwind(AssertUnwindSafe(|| c.verif_index_lost())).unwrap_or(0) > 0 {
+                bad("HASHMAP-LOST-ENTRIES: after the injected panic the hash index counts entries it cannot find any more".to_string());
+                lost = true;
+                break;
+            }
+        }
+        if !lost {
+            // everything still reachable must be live
+            let _ = catch_unwind(AssertUnwindSafe(|| {
+                for (k, x) in c.iter() {
+                    let _ = (k.read(), x.read());
+                }
+            }));
+        }
+    }
+    if lost {
+        std::mem::forget(cache.take());
+    }
+    if let Some(c) = cache.take() {
+        if catch_unwind(AssertUnwindSafe(move || drop(c))).is_err() {
+            let _ = take_last_panic();
+        }
+    }
+    arm(-1);
+    let n = points_seen();
+    let mut b = take_bad();
+    let dmg = alloc::flush_quarantine();
+    alloc::take_quarantine_damage();
+    alloc::set_quarantine(false);
+    if dmg > 0 {
+        b.push(format!("{} freed block(s) were written to after being freed", dmg));
+    }
+    (n, b)
+}
+
+/// every user-code call of (conversion + history + drop) is a crash point
+pub fn run_conv_faults(case: &ConvCase) -> CaseReport {
+    let mut rep = CaseReport::default();
+    rep.steps = case.ops.len();
+    let (n, b) = one_faulty(case, -1);
+    if !b.is_empty() {
+        // hazards without an injected fault belong to C03 / C04
+        rep.aborted_by_panic = Some(("dry-run".into(), b.join("; ")));
+        return rep;
+    }
+    let mut fired_in_build = false;
+    for i in 0..n {
+        let (_, b) = one_faulty(case, i);
+        let pt = fired().map(|p| p.name()).unwrap_or("-");
+        if !b.is_empty() {
+            let class = if b.iter().any(|x| x.contains("HASHMAP-LOST-ENTRIES")) {
+                "std-hashmap-lost-entries"
+            } else if b.iter().any(|x| x.contains("double drop") || x.contains("drop of a non-live")) {
+                "double-drop"
+            } else if b.iter().any(|x| x.contains("written to after")) {
+                "write-after-free"
+            } else {
+                "dead-object"
+            };
+            rep.violation = Some(Violation {
+                prop: "C18",
+                step: 0,
+                msg: format!("RawLRU built by {} from pairs with keys {:?}, then {:?}: panic injected into user-code call #{i} ({pt}): {}", FORMS[(case.form % FORMS.len() as u8) as usize], case.items, case.ops, b.join("; ")),
+                sig: if class == "std-hashmap-lost-entries" { "any/hasher-panic/std-hashmap-lost-entries".to_string() } else { format!("conv/{}/{}", pt, class) },
+            });
+            break;
+        }
+        // the first calls belong to the conversion itself
+        if (i as usize) < 2 * case.items.len() {
+            fired_in_build = true;
+        }
+    }
+    rep.nontrivial = fired_in_build && n > 0 && case.items.len() >= 2;
+    rep
+}
